@@ -51,7 +51,7 @@ for d in sorted(glob.glob(os.path.join(V, "seeded", "*"))):
     m = json.load(open(os.path.join(d, "meta.json")))
     rc = m.get("recheck") or {}
     out.append("| %s | %s | %s | %s | %s |" % (os.path.basename(d), m.get("property"), str(m.get("needs_to_manifest", "")).replace("|", "/")[:260],
-               str(m.get("detection", "")).replace("|", "/"), ("%s @ %s" % (rc.get("result"), rc.get("repo_head"))) if rc else "–"))
+               (str(m.get("detection", "")) + (" — OBSOLETE: " + m["obsolete"] if m.get("obsolete") else "")).replace("|", "/"), ("%s @ %s" % (rc.get("result"), rc.get("repo_head"))) if rc else "–"))
 out.append("")
 txt = "\n".join(out)
 p = os.path.join(V, "DESIGN.md")
